@@ -247,8 +247,9 @@ def gen(item, rng, tier):
             slots.append({'t': 'ldr', 'w': T.ldst_imm('ldr', rd, 6, off), 'rd': rd, 'addr': P.DBASE + 4 * off})
         elif t == 'b':
             # a branch as last slot, skipping the 16-bit marker that follows the block: B (T2), B.W (T4), BL, BX Rm, BLX Rm
-            form = rng.choice(['b', 'b', 'bw', 'bl', 'bx', 'blx', 'movpc'])
-            w = {'b': T.b(4), 'bw': 0xF000B801, 'bl': 0xF000F801, 'bx': T.bx(9), 'blx': 0x4780 | 9 << 3, 'movpc': 0x46CF}[form]
+            form = rng.choice(['b', 'b', 'bw', 'bl', 'bx', 'blx', 'movpc', 'ldrpc', 'ldrpc16'])
+            w = {'b': T.b(4), 'bw': 0xF000B801, 'bl': 0xF000F801, 'bx': T.bx(9), 'blx': 0x4780 | 9 << 3, 'movpc': 0x46CF,
+                 'ldrpc': 0xF8D6F0FC, 'ldrpc16': 0xF8D6F0FC}[form]          # LDR pc,[r6,#0xFC]: the word there is the target (Thumb bit set)
             slots.append({'t': 'b', 'w': w, 'form': form, 'name': 'branch_' + form})
     # optional prologue / epilogue: the very same MOVS halfwords that sit in the block are also executed outside it, where they
     # must set N/Z (and inside they must not) — decode-time context must not leak from one execution to the next
@@ -302,6 +303,7 @@ def gen(item, rng, tier):
         tgt = addrs[-1] + size_of(slots[-1]['w'], True) + 2        # just behind the marker
         st['R']['R9usr'] = tgt | 1
         slots[-1]['target'] = tgt
+        G.set_data(devices[2], 0x4FC, (tgt | 1).to_bytes(4, 'little'))
     events = []
     pos = None
     if kind in ('irq', 'fiq'):
